@@ -13,7 +13,7 @@ EXTRA = {"C06-m2": ["C15"], "C12-m1": ["C01", "C15"], "C13-m1": ["C01", "C15"], 
          "C14-m2": ["C05"], "C14-m3": ["C09"], "C05-m1": ["C14"], "C07-m3": ["C14"], "C02-m3": ["C15"], "C04-m3": ["C15"], "C08-m3": ["C15"], "C07-m2": ["C15"], "C01-m2": ["C15"]}
 def one(path):
     cid = path.split("/")[3]
-    name = "%s-%s" % (cid, os.path.basename(path))
+    name = "%s-%s%s" % (cid, os.environ.get("ROUND", ""), os.path.basename(path))
     props = [cid] + EXTRA.get(name, [])
     r = subprocess.run(["/verif/tools/evalmutant.sh", path, tier] + props, capture_output=True, text=True)
     out = r.stdout
@@ -57,7 +57,7 @@ def one(path):
     return res
 paths = []
 for i in ids:
-    paths += sorted(glob.glob("/tmp/wt/%s/mutants/m*" % i))
+    paths += sorted(glob.glob(os.environ.get("WT", "/tmp/wt") + "/%s/mutants/m*" % i))
 with cf.ThreadPoolExecutor(max_workers=3) as ex:
     for r in ex.map(one, paths):
         caught = [p for p, c in r["checks"].items() if c["exit"] == 1]
